@@ -270,6 +270,12 @@ func (cip *CIP) DecodeFromBytes(data []byte, df gopacket.DecodeFeedback) error {
 	}
 	cip.ServiceID = tmp & 0x7f
 
+	// Request-only and response-only fields, and the optional data: forget the
+	// values of a previous packet when the layer is reused.
+	cip.ClassID, cip.InstanceID = 0, 0
+	cip.Status, cip.AdditionalStatus = 0, nil
+	cip.Data = nil
+
 	if !cip.Response {
 		// Parse out the request
 		// path size is in 16-bit words
